@@ -306,7 +306,15 @@ func (c *Ctx) report(v *Violation) {
 		c.violations = append(c.violations, "")
 		return
 	}
-	b, _ := json.MarshalIndent(v, "", " ")
+	b, err := json.MarshalIndent(v, "", " ")
+	if err != nil {
+		// the observed value is not representable in JSON (NaN, +-Inf): keep it as text, the replay needs the case only
+		v.Actual = fmt.Sprintf("%v", v.Actual)
+		if b, err = json.MarshalIndent(v, "", " "); err != nil {
+			v.Expected = fmt.Sprintf("%v", v.Expected)
+			b, _ = json.MarshalIndent(v, "", " ")
+		}
+	}
 	sum := sha1.Sum(b)
 	os.MkdirAll(filepath.Join(verifRoot, "replays"), 0o755)
 	path := filepath.Join(verifRoot, "replays", fmt.Sprintf("%s-%x.json", c.Prop, sum[:6]))
